@@ -271,7 +271,7 @@ theorem imagesQ_ok {p : Program} (wf : WF p) (sh : Shape p) :
           · obtain ⟨sc, d', hd', isc, fsc, hmem⟩ :=
               imagesRep_mem hq _ n.deps s inv (Frame.refl p s) hn (fun _ h => h) t ht
             exact (hI d' hd' sc isc t hmem).trans fsc
-          · have hrep := repairDeps_spec sh hq (!ped && decide (n.kind ≠ .projection)) n.deps false [] s inv hn (fun _ h => h)
+          · have hrep := repairDeps_spec hq (!ped && decide (n.kind ≠ .projection)) n.deps false [] s inv hn (fun _ h => h)
             cases hr : repairDeps (queryQ p fuel ped) k (!ped && decide (n.kind ≠ .projection)) n.seen n.deps false [] s with
             | error e => rw [hr] at ht; simp at ht
             | ok r =>
